@@ -428,13 +428,16 @@ const (
 // scripted tree main -> fork child -> clone grandchild, a seccomp trap in each of them with
 // an arbitrary verdict (all three use the same handler).
 func VerifC03_MultiProc() {
-	traceHarnessS(10, 3, false, []scriptEv{
+	traceHarnessS(13, 3, false, []scriptEv{
 		{0, 0},             // initial SIGSTOP of main (generated by the model)
 		{0, wsTrapExec},    // exec
 		{0, wsTrapSeccomp}, // trap in main
 		{0, wsTrapFork},    // fork
 		{1, 0},             // child's initial stop
 		{1, wsTrapSeccomp}, // trap in child
+		{1, wsTrapExec},    // the child execs another program: later traps are still the program's
+		{0, wsTrapSeccomp}, // trap in main after the child's exec
+		{1, wsTrapSeccomp}, // trap in the child after its exec
 		{1, wsTrapClone},   // clone
 		{2, 0},             // thread's initial stop
 		{2, wsTrapSeccomp}, // trap in the thread
